@@ -1556,6 +1556,8 @@ def r_ownfirst(ctx) -> RuleResult:
         res.inst(f.fq, f"neighbour values sorted: {short(node, 60)}", "ok" if ok2 else "fail")
         if not ok2:
             why = "neighbour values are not sorted" if has_nbr else "the key holds no neighbour values"
+            if any(s_[0] == "nbr" and s_[1] == "partial" for s_ in fl):
+                why = "only part of the neighbours enters the key (which part depends on the listing order)"
             res.fail(Finding("R-OWNFIRST", f.module.rel, f.qualname, norm(node), f"{why}: the key depends on neighbour listing order", line=getattr(node, "lineno", None)))
     # ranks
     quals = {(q, getattr(n, "lineno", 0), f.fq): (q, n, f) for q, n, f in K.ranks}
